@@ -29,6 +29,8 @@ type Opts struct {
 	// NoWait returns right after Subscribe (caller drives puppets).
 	NoWait bool
 	Rec    *rec.Rec
+	// Tweak adjusts source i before the pipeline is built (fault injection).
+	Tweak func(i int, s *src.Source)
 }
 
 type Result struct {
@@ -57,6 +59,9 @@ func Build(o Opts) *Result {
 		s := src.New(fmt.Sprintf("s%d", i), sc)
 		s.Mode = o.Mode
 		s.Async = o.Async
+		if o.Tweak != nil {
+			o.Tweak(i, s)
+		}
 		res.Srcs = append(res.Srcs, s)
 		b.Srcs = append(b.Srcs, s.Observable())
 	}
